@@ -93,7 +93,7 @@ func (p *Program) Rank() int {
 				v = 15
 			}
 			r += v
-		case EStr:
+		case EStr, ENull:
 			r += 1
 		case EBool:
 			if e.B {
@@ -149,6 +149,15 @@ func (p *Program) Rank() int {
 				}
 				if s.NoInit {
 					r += 2
+				}
+				if s.Cmp != "" {
+					r += 2
+				}
+				if s.BoundVar != "" {
+					r += 4
+				}
+				if s.Free {
+					r++
 				}
 			case SIncDec:
 				if s.Op != "post++" {
@@ -397,10 +406,19 @@ func edits(p *Program) []func() {
 						break
 					}
 					k := k
-					add(func() { s.Loop, s.Subj, s.Key, s.Init, s.NoInit, s.Step = k, nil, "", nil, false, "" })
+					add(func() { s.Loop, s.Subj, s.Key, s.Init, s.NoInit, s.Step, s.Cmp = k, nil, "", nil, false, "", "" })
 				}
 				if s.Key != "" {
 					add(func() { s.Key = "" })
+				}
+				if s.Cmp != "" {
+					add(func() { s.Cmp = "" })
+				}
+				if s.BoundVar != "" {
+					add(func() { s.BoundVar = "" })
+				}
+				if s.Free {
+					add(func() { s.Free = false })
 				}
 				if s.Subj != nil {
 					add(func() { s.Subj = nil })
@@ -505,7 +523,7 @@ func edits(p *Program) []func() {
 			if e.B {
 				add(func() { *sl = Bool(false) })
 			}
-		case EStr:
+		case EStr, ENull:
 		default:
 			add(func() { *sl = Int(0) })
 			add(func() { *sl = Int(1) })
